@@ -10,6 +10,27 @@ Local Open Scope Z_scope.
 Local Open Scope list_scope.
 Notation lookup := MiniPyR.lookup.
 
+(* PROVED: path_matching_gen (end of file), value and exception, for all ce, fuel, s, acc (rows of four entries, entries arbitrary),
+   prev, occ, has_indel -- with ONE added hypothesis, occ <> -1 (corollary path_matching_gen_nonneg: 0 <= occ, which is what
+   repair_dna passes).  The statement as given is FALSE for occ = -1 (checked with Eval vm_compute on strings of length 1..6, every
+   occ from -length-2 to length+2, prev in and out of range, both has_indel, foreign characters, the GC-balanced order-2 accessor, a
+   complete accessor, an accessor with entries outside the graph, the empty accessor: occ = -1 is the only disagreement), e.g.
+     s = "A", acc = the complete order-2 accessor (acc[v][j] = (4 v + j) mod 16), prev = 0, occ = -1, has_indel = False:
+       program (= CPython):  ([(('S', -1, 'C'), 'C'), (('S', -1, 'G'), 'G'), (('S', -1, 'T'), 'T')], 3)
+       Repair.path_matching: ([(('S', -1, 'C'), 'CA'), (('S', -1, 'G'), 'GA'), (('S', -1, 'T'), 'TA')], 3)
+     s = "ACA", acc = the GC-balanced accessor of the docstring, prev = 4, occ = -1, has_indel = False:
+       program: 'ACC', 'ACG' / model: 'ACCACA', 'ACGACA'.
+   Reason: for occ = -1 dna_sequence[occ + 1:] is dna_sequence[0:], the whole string, in Python and in the model (py_slice_from s 0),
+   so the walks and visited counts agree; but Python builds the repaired string from list(dna_sequence) by replacing / deleting
+   position occ (the last symbol), whereas the model writes before ++ c :: after = s[:-1] ++ c :: s (resp. s[:-1] ++ s).  Insertion
+   records agree for every occ.  No other hypothesis is needed: out-of-range prev, occ, vertex entries give IndexError on both sides
+   in the same place; foreign characters simply end a walk (`in` is tested before `.index`).
+   Structure: (1) body_step: one iteration of a walk loop = step_arc; (2) walk_loop: the SForB loop with break = walk_from, by
+   induction on the rest of the string (the loop target is abstracted by feed1: enumerate(..) pairs or plain characters);
+   (3)+(4) cand_loop: the loop over candidate nucleotides = try_each (the walk statement and the record statement are parameters:
+   walks / records, instantiated by walks_L1 / walks_L2 and rec_S / rec_I / rec_D); (5) del_part, main_part, exec_S_orig and the
+   theorem.  Environments are only ever described through lookup; `frame S en en'` says that only the variables in S changed. *)
+
 (* ---- tactics ------------------------------------------------------------------------------------------------------ *)
 Ltac lk := repeat (rewrite lookup_update_same || (rewrite lookup_update_other by discriminate)).
 
@@ -305,9 +326,6 @@ Section Walk.
     intro en. cbn [assign]. eexists. split; [reflexivity|]. split; [lk; reflexivity|]. apply frame_update; inl.
   Qed.
 
-  Lemma incl_w S : (forall y, In y S -> In y wscratch) -> incl S wscratch.
-  Proof. intros H y Hy. apply H, Hy. Qed.
-
   (* (2) the inner walk loop (with break) = walk_from *)
   Lemma walk_loop t : forall cs its en v vc, Forall2 (feed1 t) its cs ->
     lookup "accessor" en = Ret (varr2 acc) -> lookup "nucleotides" en = Ret (VStr ACGT) ->
@@ -475,6 +493,50 @@ Definition cand_body (x : string) (L R : stmt) : stmt :=
  (SSeq (SAssign (TTuple ["vertex_index"%string; "reliable"%string]) (ETuple [(EIndex (EIndex (EVar "accessor"%string) (EVar "previous_index"%string)) (EB2 BIndexOf (EVar "nucleotides"%string) (EVar x))); (EBoolLit true)]))
  (SSeq L
  (SIf (EVar "reliable"%string) R SSkip))).
+
+Definition subs_iter : expr :=
+  (ECompIf (EVar "n"%string) "n"%string (EComp (EIndex (EVar "nucleotides"%string) (EVar "index"%string)) "index"%string (EVar "used_indices"%string)) (ECmp CNe (EVar "n"%string) (EVar "original"%string))).
+Definition ins_iter : expr :=
+  (EComp (EIndex (EVar "nucleotides"%string) (EVar "used_index"%string)) "used_index"%string (EVar "used_indices"%string)).
+Definition S_none : stmt :=
+ (SIf (EB1 BIsNone (EVar "nucleotides"%string))
+ (SAssign (TVar "nucleotides"%string) (EStr [65; 67; 71; 84]))
+ SSkip).
+Definition S_init : stmt :=
+ (SAssign (TTuple ["repair_info"%string; "visited_count"%string]) (ETuple [(EList []); (EInt (0))])).
+Definition S_orig : stmt :=
+ (SAssign (TTuple ["original"%string; "used_indices"%string]) (ETuple [(EIndex (EVar "dna_sequence"%string) (EVar "occur_location"%string)); (EIndex (EB1 BNpWhere (ECmp CGe (EIndex (EVar "accessor"%string) (EVar "previous_index"%string)) (EInt (0)))) (EInt (0)))])).
+Definition R_S : stmt := rec_stmt mut_S 83 "r_nucleotide".
+Definition R_I : stmt := rec_stmt mut_I 73 "a_nucleotide".
+Definition R_D : stmt := rec_stmt mut_D 68 "d_nucleotide".
+Definition S_subs : stmt := (SFor (TVar "r_nucleotide"%string) subs_iter (cand_body "r_nucleotide" L1 R_S)).
+Definition S_ins : stmt := (SFor (TVar "a_nucleotide"%string) ins_iter (cand_body "a_nucleotide" L2 R_I)).
+Definition S_dinit : stmt :=
+ (SAssign (TTuple ["d_nucleotide"%string; "vertex_index"%string; "reliable"%string]) (ETuple [(EVar "original"%string); (EVar "previous_index"%string); (EBoolLit true)])).
+Definition S_indel : stmt :=
+ (SIf (EVar "has_indel"%string)
+ (SSeq S_ins
+ (SSeq S_dinit
+ (SSeq L1
+ (SIf (EVar "reliable"%string) R_D SSkip))))
+ SSkip).
+Definition S_ret : stmt := (SReturn (ETuple [(EVar "repair_info"%string); (EVar "visited_count"%string)])).
+
+Lemma body_shape :
+  body path_matching_def = SSeq S_none (SSeq S_init (SSeq S_orig (SSeq S_subs (SSeq S_indel S_ret)))).
+Proof. reflexivity. Qed.
+
+Lemma compif_go_cons ce en x bd cd v t :
+  compif_go ce en x bd cd (v :: t) =
+  (c <~ eval ce (update x v en) cd ;; b <~ truthy c ;;
+   if b then w <~ eval ce (update x v en) bd ;; r <~ compif_go ce en x bd cd t ;; Ret (w :: r) else compif_go ce en x bd cd t).
+Proof. reflexivity. Qed.
+
+Lemma cmp_ne_nuc a c : cmp_top CNe (nucv a) (VStr [c]) = Ret (VBool (negb (nuc_char a =? c))).
+Proof.
+  unfold nucv. cbv beta iota delta [cmp_top cmp_vals cmp_scalar mixes_bool is_arr orb val_eqb listZ_eqb].
+  rewrite andb_true_r. reflexivity.
+Qed.
 
 Definition consts : list string :=
   ["dna_sequence"; "accessor"; "previous_index"; "occur_location"; "has_indel"; "nucleotides"; "original"; "used_indices"].
@@ -728,4 +790,204 @@ Section Cand.
         destruct IH as [en5 [E5 [Hri5 [Hvc5 F5]]]]. exists en5. split; [exact E5|]. split; [exact Hri5|]. split; [exact Hvc5|].
         eapply frame_trans; [exact F13|exact F5].
   Qed.
+
+  (* (5) the sections *)
+  Let used : list Z := used_indices row.
+
+  Lemma used_ok : Forall (fun j => 0 <= j < 4) used.
+  Proof. apply used_range. exact (row_len acc Hacc prev row Hrow). Qed.
+
+  Lemma eval_comp_used en x : x = "index" \/ x = "used_index" -> cinv en ->
+    eval ce en (EComp (EIndex (EVar "nucleotides") (EVar x)) x (EVar "used_indices")) = Ret (VList (map nucv used)).
+  Proof.
+    intros Hx (H1 & H2 & H3 & H4 & H5 & H6 & H7 & H8). cbn [eval]. rewrite H8. cbn [rbind]. rewrite items_varr. cbn [rbind].
+    rewrite (map_res_map _ VInt nucv); [reflexivity|].
+    intros y Hy. pose proof used_ok as Hr. rewrite Forall_forall in Hr.
+    destruct Hx; subst x; lk; rewrite H6; cbn [rbind]; apply index_nuc, Hr, Hy.
+  Qed.
+
+  Lemma compif_filter en : cinv en -> forall l,
+    compif_go ce en "n" (EVar "n") (ECmp CNe (EVar "n") (EVar "original")) (map nucv l) =
+    Ret (map nucv (filter (fun j => negb (nuc_char j =? orig)) l)).
+  Proof.
+    intros (H1 & H2 & H3 & H4 & H5 & H6 & H7 & H8). induction l as [|a l IH]; [reflexivity|].
+    cbn [map filter]. rewrite compif_go_cons. cbn [eval]. lk. rewrite H7. cbn [rbind]. rewrite cmp_ne_nuc. cbn [rbind truthy].
+    rewrite IH. destruct (negb (nuc_char a =? orig)); reflexivity.
+  Qed.
+
+  Lemma eval_subs_iter en : cinv en ->
+    eval ce en subs_iter = Ret (VList (map nucv (filter (fun j => negb (nuc_char j =? orig)) used))).
+  Proof.
+    intro Hinv. unfold subs_iter. rewrite eval_compif. rewrite (eval_comp_used en "index" (or_introl eq_refl) Hinv).
+    cbn [rbind items]. rewrite (compif_filter en Hinv). reflexivity.
+  Qed.
+
+  Lemma filter_ok (f : Z -> bool) : Forall (fun j => 0 <= j < 4) (filter f used).
+  Proof.
+    pose proof used_ok as Hr. rewrite Forall_forall in Hr. apply Forall_forall. intros y Hy. apply filter_In in Hy. apply Hr, Hy.
+  Qed.
+
+  (* the model once dna_sequence[occ] and accessor[prev] are known to exist *)
+  Definition pm_tail : result (list record * Z) :=
+    subs <- try_each acc row (filter (fun j => negb (nuc_char j =? orig)) used) after
+              (fun j => (0, nuc_char j, before ++ nuc_char j :: after)) 0 ;;
+    if hi then
+      ins <- try_each acc row used from_occ (fun j => (1, nuc_char j, before ++ nuc_char j :: from_occ)) (snd subs) ;;
+      del <- walk_from acc prev after 0 ;;
+      Ok (fst subs ++ fst ins ++ (if fst del then [(2, orig, before ++ after)] else []), snd ins + snd del)
+    else Ok subs.
+
+  Lemma pm_unfold : path_matching s acc prev occ hi = pm_tail.
+  Proof. unfold path_matching. rewrite Hs, Hrow. reflexivity. Qed.
+
+  Definition out_of (r : result (list record * Z)) : outcome :=
+    match r with
+    | Ok (recs, vc) => OReturn (VTuple [VList (map (v_record occ) recs); VInt vc])
+    | Raise e => OExn e
+    | OutOfFuel => OFuel
+    end.
+
+  Lemma exec_ret en ri vc : lookup "repair_info" en = Ret (VList ri) -> lookup "visited_count" en = Ret (VInt vc) ->
+    exec ce fuel S_ret en = OReturn (VTuple [VList ri; VInt vc]).
+  Proof. intros H1 H2. unfold S_ret. cbn [exec eval]. rewrite H1, H2. reflexivity. Qed.
+
+  Lemma exec_S_dinit en : cinv en ->
+    exec ce fuel S_dinit en =
+    ONormal (update "reliable" (VBool true) (update "vertex_index" (VInt prev) (update "d_nucleotide" (VStr [orig]) en))).
+  Proof.
+    intros (H1 & H2 & H3 & H4 & H5 & H6 & H7 & H8). unfold S_dinit. cbn [exec eval]. rewrite H7, H3. reflexivity.
+  Qed.
+
+  Lemma del_part en ri vc : cinv en -> lookup "repair_info" en = Ret (VList ri) -> lookup "visited_count" en = Ret (VInt vc) ->
+    match walk_from acc prev after 0 with
+    | Ok (b, n) => exists en', exec ce fuel (SSeq S_dinit (SSeq L1 (SIf (EVar "reliable") R_D SSkip))) en = ONormal en' /\
+                     lookup "repair_info" en' = Ret (VList (ri ++ map (v_record occ) (if b then [(2, orig, before ++ after)] else []))) /\
+                     lookup "visited_count" en' = Ret (VInt (vc + n))
+    | Raise e => exec ce fuel (SSeq S_dinit (SSeq L1 (SIf (EVar "reliable") R_D SSkip))) en = OExn e
+    | OutOfFuel => True
+    end.
+  Proof.
+    intros Hinv Hri Hvc. pose proof Hinv as (H1 & H2 & H3 & H4 & H5 & H6 & H7 & H8).
+    rewrite exec_seq. rewrite (exec_S_dinit en Hinv). cbn [seq].
+    set (en1 := update "reliable" (VBool true) (update "vertex_index" (VInt prev) (update "d_nucleotide" (VStr [orig]) en))).
+    assert (F1 : frame scr en en1).
+    { apply frame_update_r; [unfold scr; inl|]. apply frame_update_r; [unfold scr; inl|]. apply frame_update; unfold scr; inl. }
+    assert (Hinv1 : cinv en1) by (eapply cinv_scr; [exact Hinv|exact F1]).
+    assert (HV1 : lookup "vertex_index" en1 = Ret (VInt prev)) by (unfold en1; lk; reflexivity).
+    assert (HR1 : lookup "reliable" en1 = Ret (VBool true)) by (unfold en1; lk; reflexivity).
+    assert (Hd1 : lookup "d_nucleotide" en1 = Ret (VStr [orig])) by (unfold en1; lk; reflexivity).
+    assert (Hri1 : lookup "repair_info" en1 = Ret (VList ri)) by (unfold en1; lk; exact Hri).
+    assert (Hvc1 : lookup "visited_count" en1 = Ret (VInt vc)) by (unfold en1; lk; exact Hvc).
+    clearbody en1. rewrite exec_seq.
+    pose proof (walks_L1 en1 prev vc Hinv1 HV1 Hvc1 HR1) as W. rewrite walk_from_shift in W.
+    destruct (walk_from acc prev after 0) as [[b n]|e|]; [|rewrite W; reflexivity|exact I].
+    destruct W as [en2 [E2 [HR2 [Hvc2 F2]]]]. rewrite E2. cbn [seq]. rewrite exec_if. cbn [eval]. rewrite HR2. cbn [lift truthy].
+    assert (Hinv2 : cinv en2) by (eapply cinv_w; [exact Hinv1|exact F2]).
+    assert (Hd2 : lookup "d_nucleotide" en2 = Ret (VStr [orig])) by (rewrite F2 by (unfold wscratch; ni); exact Hd1).
+    assert (Hri2 : lookup "repair_info" en2 = Ret (VList ri)) by (rewrite F2 by (unfold wscratch; ni); exact Hri1).
+    destruct b.
+    - destruct (rec_D en2 ri orig Hinv2 Hd2 Hri2) as [en3 [E3 [Hri3 F3]]]. unfold R_D. rewrite E3.
+      exists en3. split; [reflexivity|]. split; [exact Hri3|]. rewrite F3 by ni. exact Hvc2.
+    - cbn [exec]. exists en2. split; [reflexivity|]. split; [cbn [map]; rewrite app_nil_r; exact Hri2|exact Hvc2].
+  Qed.
+
+  Lemma main_part en : cinv en -> lookup "repair_info" en = Ret (VList []) -> lookup "visited_count" en = Ret (VInt 0) ->
+    exec ce fuel (SSeq S_subs (SSeq S_indel S_ret)) en = out_of pm_tail.
+  Proof.
+    intros Hinv Hri Hvc. rewrite exec_seq. unfold S_subs. rewrite exec_for. rewrite (eval_subs_iter en Hinv). cbn [lift items].
+    pose proof (cand_loop "r_nucleotide" L1 R_S after (fun c => (0, c, before ++ c :: after)) (or_introl eq_refl) walks_L1 rec_S
+                  (filter (fun j => negb (nuc_char j =? orig)) used) en [] 0 (filter_ok _) Hinv Hri Hvc) as C.
+    unfold pm_tail.
+    destruct (try_each acc row (filter (fun j => negb (nuc_char j =? orig)) used) after
+                (fun j => (0, nuc_char j, before ++ nuc_char j :: after)) 0) as [[recs1 vc1]|e|] eqn:T1; cbn [bind fst snd out_of];
+      [|rewrite C; reflexivity|exfalso; exact (try_each_nofuel _ _ _ _ _ _ T1)].
+    destruct C as [en1 [E1 [Hri1 [Hvc1 F1]]]]. rewrite E1. cbn [seq app] in *.
+    assert (Hinv1 : cinv en1) by (eapply cinv_scr; [exact Hinv|exact F1]).
+    pose proof Hinv1 as (H1 & H2 & H3 & H4 & H5 & H6 & H7 & H8).
+    rewrite exec_seq. unfold S_indel. rewrite exec_if. cbn [eval]. rewrite H5. cbn [lift truthy].
+    destruct hi.
+    - rewrite exec_seq. unfold S_ins. rewrite exec_for. unfold ins_iter.
+      rewrite (eval_comp_used en1 "used_index" (or_intror eq_refl) Hinv1). cbn [lift items].
+      pose proof (cand_loop "a_nucleotide" L2 R_I from_occ (fun c => (1, c, before ++ c :: from_occ)) (or_intror eq_refl) walks_L2 rec_I
+                    used en1 (map (v_record occ) recs1) vc1 used_ok Hinv1 Hri1 Hvc1) as C2.
+      destruct (try_each acc row used from_occ (fun j => (1, nuc_char j, before ++ nuc_char j :: from_occ)) vc1)
+        as [[recs2 vc2]|e|] eqn:T2; cbn [bind fst snd out_of];
+        [|rewrite C2; reflexivity|exfalso; exact (try_each_nofuel _ _ _ _ _ _ T2)].
+      destruct C2 as [en2 [E2 [Hri2 [Hvc2 F2]]]]. rewrite E2. cbn [seq].
+      assert (Hinv2 : cinv en2) by (eapply cinv_scr; [exact Hinv1|exact F2]).
+      pose proof (del_part en2 _ vc2 Hinv2 Hri2 Hvc2) as D.
+      destruct (walk_from acc prev after 0) as [[b n]|e|] eqn:T3; cbn [bind fst snd out_of];
+        [|rewrite D; reflexivity|exfalso; exact (walk_from_nofuel _ _ _ _ T3)].
+      destruct D as [en3 [E3 [Hri3 Hvc3]]]. rewrite E3. cbn [seq].
+      rewrite (exec_ret en3 _ _ Hri3 Hvc3). rewrite !map_app, app_assoc. reflexivity.
+    - cbn [exec seq out_of]. rewrite (exec_ret en1 _ _ Hri1 Hvc1). reflexivity.
+  Qed.
 End Cand.
+
+(* ---- the prelude ------------------------------------------------------------------------------------------------------ *)
+Lemma exec_S_orig ce fuel s acc prev occ en :
+  lookup "dna_sequence" en = Ret (VStr s) -> lookup "accessor" en = Ret (varr2 acc) ->
+  lookup "previous_index" en = Ret (VInt prev) -> lookup "occur_location" en = Ret (VInt occ) ->
+  exec ce fuel S_orig en =
+  match py_get s occ with
+  | Ok orig => match py_get acc prev with
+               | Ok row => ONormal (update "used_indices" (varr (used_indices row)) (update "original" (VStr [orig]) en))
+               | _ => OExn IndexError
+               end
+  | _ => OExn IndexError
+  end.
+Proof.
+  intros H1 H2 H3 H4. unfold S_orig. cbn [exec eval]. rewrite H1, H2, H3, H4. cbn [rbind].
+  change (index_val (VStr s) (VInt occ)) with (match py_get s occ with Ok c => Ret (VStr [c]) | _ => Exn IndexError end).
+  destruct (py_get s occ) as [orig|e|]; cbn [rbind lift]; try reflexivity.
+  rewrite index_varr2. destruct (py_get acc prev) as [row|e|]; cbn [rbind lift]; try reflexivity.
+  rewrite cmp_top_varr, cmp_ge0_varr. cbn [rbind]. rewrite where_ge0. cbn [rbind]. rewrite index_tuple1.
+  cbn [rbind lift assign items bind_tuple]. reflexivity.
+Qed.
+
+(* ---- the theorem ------------------------------------------------------------------------------------------------------ *)
+(* STATEMENT AS GIVEN (false for occ = -1, see the note below):
+   Theorem path_matching_gen : forall ce fuel s acc prev occ has_indel,
+     Forall (fun row => length row = 4%nat) acc ->
+     run_fun ce fuel path_matching_def [VStr s; varr2 acc; VInt prev; VInt occ; VBool has_indel; VNone]
+     = res_of_matching occ (Repair.path_matching s acc prev occ has_indel).
+   Added hypothesis: occ <> -1.  For occ = -1 Python's dna_sequence[occ + 1:] is dna_sequence[0:], the WHOLE string (and so is the
+   model's py_slice_from s 0, so the walks agree), but the program builds the repaired string by list(dna_sequence) with
+   [occ] replaced / deleted (the last symbol), whereas the model writes before ++ c :: after = s[:-1] ++ c :: s, resp. s[:-1] ++ s. *)
+Theorem path_matching_gen : forall ce fuel s acc prev occ has_indel,
+  Forall (fun row => length row = 4%nat) acc -> occ <> -1 ->
+  run_fun ce fuel path_matching_def [VStr s; varr2 acc; VInt prev; VInt occ; VBool has_indel; VNone]
+  = res_of_matching occ (Repair.path_matching s acc prev occ has_indel).
+Proof.
+  intros ce fuel s acc prev occ hi Hacc Hocc. unfold run_fun. rewrite body_shape.
+  change (params path_matching_def) with ["dna_sequence"; "accessor"; "previous_index"; "occur_location"; "has_indel"; "nucleotides"].
+  cbn [bind_params].
+  set (en0 := [("dna_sequence", VStr s); ("accessor", varr2 acc); ("previous_index", VInt prev); ("occur_location", VInt occ);
+               ("has_indel", VBool hi); ("nucleotides", VNone)]).
+  set (en1 := [("dna_sequence", VStr s); ("accessor", varr2 acc); ("previous_index", VInt prev); ("occur_location", VInt occ);
+               ("has_indel", VBool hi); ("nucleotides", VStr ACGT); ("repair_info", VList []); ("visited_count", VInt 0)]).
+  rewrite exec_seq. replace (exec ce fuel S_none en0) with (ONormal (update "nucleotides" (VStr ACGT) en0)) by reflexivity.
+  cbn [seq]. rewrite exec_seq. replace (exec ce fuel S_init (update "nucleotides" (VStr ACGT) en0)) with (ONormal en1) by reflexivity.
+  cbn [seq]. rewrite exec_seq.
+  rewrite (exec_S_orig ce fuel s acc prev occ en1 eq_refl eq_refl eq_refl eq_refl).
+  destruct (py_get s occ) as [orig|e|] eqn:Hs.
+  - destruct (py_get acc prev) as [row|e|] eqn:Hrow.
+    + cbn [seq]. rewrite (pm_unfold acc s prev occ hi orig row Hs Hrow).
+      rewrite (main_part ce fuel acc Hacc s prev occ hi orig row Hs Hrow Hocc); [| |reflexivity|reflexivity].
+      * destruct (pm_tail acc s prev occ hi orig row) as [[recs vc]|e|]; reflexivity.
+      * unfold cinv. repeat split; reflexivity.
+    + cbn [seq]. unfold path_matching. rewrite Hs, Hrow. apply py_get_raise in Hrow. subst e. reflexivity.
+    + exfalso. exact (py_get_fuel _ _ Hrow).
+  - cbn [seq]. unfold path_matching. rewrite Hs. apply py_get_raise in Hs. subst e. reflexivity.
+  - exfalso. exact (py_get_fuel _ _ Hs).
+Qed.
+
+(* what repair_dna needs: occur_location = observed_length - recall - 1 with recall < observed_length *)
+Corollary path_matching_gen_nonneg : forall ce fuel s acc prev occ has_indel,
+  Forall (fun row => length row = 4%nat) acc -> 0 <= occ ->
+  run_fun ce fuel path_matching_def [VStr s; varr2 acc; VInt prev; VInt occ; VBool has_indel; VNone]
+  = res_of_matching occ (Repair.path_matching s acc prev occ has_indel).
+Proof. intros ce fuel s acc prev occ hi Hacc Hocc. apply path_matching_gen; [exact Hacc|lia]. Qed.
+
+Print Assumptions path_matching_gen.
+Print Assumptions path_matching_gen_nonneg.
